@@ -81,6 +81,9 @@ type SvcCase struct {
 	// as soon as Shutdown returned, whether or not the previous Serve call
 	// has returned yet
 	OverlapServe bool `json:"overlap_serve,omitempty"`
+	// BlockingConn: the connection hands messages over with blocking sends
+	// under a lock that its Close needs too (with a small in channel)
+	BlockingConn bool `json:"blocking_conn,omitempty"`
 	// LingerServe (with OverlapServe): the Serve call of a stopped epoch is
 	// kept on its way out for as long as anything else can run
 	LingerServe bool         `json:"linger_serve,omitempty"`
@@ -830,6 +833,7 @@ func (e *Engine) Epoch() *EpochInfo {
 // connFor creates the connection of an epoch.
 func (e *Engine) newConn(ep *EpochInfo, epoch int) *simconn.Conn {
 	c := simconn.New(e.Sim)
+	c.Blocking = e.Case.BlockingConn
 	serveTask := "serve"
 	if epoch > 0 {
 		serveTask = "serve" + strconv.Itoa(epoch+1)
